@@ -457,10 +457,31 @@ func runReplay(file string) int {
 		fmt.Println("REPLAY: not reproduced in 200 repetitions")
 		return 0
 	}
-	v, ex := runExec(p, ref, rp.Exec, nil)
+	// With every iteration order in /repo seeded, an execution is a pure function of the file and
+	// the first repetition decides. Repetitions only matter when the output also depends on a
+	// source the simulator does not own (iteration inside a dependency, addresses): then the
+	// violation is real but shows up in some repetitions only, and the report says so.
+	var v *Violation
+	var ex *execState
+	hits, reps := 0, 0
+	for reps = 1; reps <= 30; reps++ {
+		vi, exi := runExec(p, ref, rp.Exec, nil)
+		if vi != nil {
+			hits++
+			if v == nil {
+				v, ex = vi, exi
+			}
+		}
+		if reps == 1 && vi != nil {
+			break
+		}
+	}
 	if v == nil {
 		fmt.Println("REPLAY: no violation (the recorded violation does not occur on this tree)")
 		return 0
+	}
+	if reps > 1 {
+		fmt.Printf("REPLAY: NOTE the violation occurred in %d of %d repetitions of identical decisions: the output also depends on a source of nondeterminism outside the simulator's control\n", hits, reps-1)
 	}
 	fmt.Printf("REPLAY: violation class=%s form=%s op=%d %s pkg=%s file=%s\n  %s\n  non-identity orders applied: %v\n", v.Class, v.Form, v.OpIndex, v.Op, v.Pkg, v.File, truncate(v.Detail, 600), appliedSites(ex.applied))
 	if v.Key() == rp.Violation.Key() {
